@@ -8,7 +8,7 @@
    CrystalSetup::optimum_theta drive it (seeds, bounds, iteration limit, tolerance, early exit, final test, sign). *)
 From Coq Require Import Reals List Bool.
 From SpdVerif Require Import Base.Rx Base.Vec3 Gen.Idler Gen.AutoCalc Model.Idler Model.NM1d Model.AutoCalc
-  Proofs.C03_base Proofs.C03_idler Proofs.C04_nm Proofs.C04_poling Proofs.C04_collinear Proofs.C04_all.
+  Proofs.C03_base Proofs.C03_idler Proofs.C04_nm Proofs.C04_poling Proofs.C04_collinear Proofs.C04_all Proofs.C04_conv Proofs.C04_conv_poling.
 Local Open Scope R_scope.
 
 (* a strict weak order on the finite costs (binary64 without NaN, Q and R are) *)
@@ -106,6 +106,84 @@ Theorem C04_theta_residual_partial : forall cost_theta o sd L c, 0 < L ->
   cost_theta (optimum_theta cost_theta o sd) * L / 2 < 1e-3.
 Proof. exact theta_residual_partial. Qed.
 
+(* ------------------------------------------------------------------------------------------------------------------------
+   CONVERGENCE of the two-vertex simplex in exact arithmetic on V-shaped costs: cost = |h| inside [lo, hi], +infinity outside,
+   h strictly increasing on [lo, hi] with a root r there (|h| = |-h| covers the decreasing case).
+   `steps` iterates the model's `step` (no termination test), `width` = |worst - best|, `doublings` = the step accepts the expansion. *)
+
+(* the first step that is not a doubling step puts the root within twice the width of the best vertex, without growing the width *)
+Theorem C04_conv_bracket_established : forall lo hi r h, lo <= r <= hi -> h r = 0 ->
+  (forall x y, lo <= x -> x < y -> y <= hi -> h x < h y) ->
+  forall s, stI lo hi h s -> ~ doublings lo hi h s ->
+  B2s lo hi r h (step Rltb real_ops (vcost lo hi h) s) /\
+  width (step Rltb real_ops (vcost lo hi h) s) <= width s /\
+  Rabs (r - bs (step Rltb real_ops (vcost lo hi h) s)) <= 2 * width (step Rltb real_ops (vcost lo hi h) s).
+Proof. exact u_bracket_established. Qed.
+
+(* inside the bracket: it is kept, the width never grows, and after 2 m steps it is at most width / 2^m
+   (a plain reflection is always followed by a contraction): error <= 2 width / 2^m — a factor 1/sqrt 2 per iteration *)
+Theorem C04_conv_bracket_rate : forall lo hi r h, lo <= r <= hi -> h r = 0 ->
+  (forall x y, lo <= x -> x < y -> y <= hi -> h x < h y) ->
+  forall m s, stI lo hi h s -> B2s lo hi r h s ->
+  B2s lo hi r h (steps lo hi h (2 * m) s) /\ width (steps lo hi h (2 * m) s) <= width s / 2 ^ m /\
+  Rabs (r - bs (steps lo hi h (2 * m) s)) <= 2 * width s / 2 ^ m.
+Proof. exact u_bracket_rate. Qed.
+
+(* the approach phase is short: J + 1 doubling steps at the start need 2^J width0 < |r - best0| *)
+Theorem C04_conv_doubling_count : forall lo hi r h, lo <= r <= hi -> h r = 0 ->
+  (forall x y, lo <= x -> x < y -> y <= hi -> h x < h y) ->
+  forall J s, stI lo hi h s -> (forall j, (j <= J)%nat -> doublings lo hi h (steps lo hi h j s)) ->
+  2 ^ J * width s < Rabs (r - bs s).
+Proof. exact u_doubling_count. Qed.
+
+(* from the seeds, for the executor: unless the termination test fires before iteration J + 1 + 2 m, the returned point is
+   within 2 * 2^J |g1 - g0| / 2^m of the root *)
+Theorem C04_nm_run_converges : forall lo hi r h, lo <= r <= hi -> h r = 0 ->
+  (forall x y, lo <= x -> x < y -> y <= hi -> h x < h y) ->
+  forall sd g0 g1 n J m, g0 <> g1 -> (lo <= g0 <= hi \/ lo <= g1 <= hi) ->
+  let s := init Rltb (vcost lo hi h) g0 g1 in
+  (forall j, (j < J)%nat -> doublings lo hi h (steps lo hi h j s)) -> ~ doublings lo hi h (steps lo hi h J s) ->
+  (J + 1 + 2 * m <= n)%nat ->
+  (exists k, (k < J + 1 + 2 * m)%nat /\ terminated sd (steps lo hi h k s) = true) \/
+  Rabs (r - nm_result Rltb real_ops (vcost lo hi h) sd g0 g1 n) <= 2 * (2 ^ J * Rabs (g1 - g0)) / 2 ^ m.
+Proof. exact nm_run_converges. Qed.
+
+(* what an early stop of the standard-deviation test (exact form (ca - cb)^2 / 2 < tol^2) implies: with a lower slope m of h
+   and both vertices on the same side of the root, (m width)^2 < 2 tol^2.  (Vertices straddling the root with nearly equal
+   costs stop the search without any bound: that is the exception to the residual contract.) *)
+Theorem C04_sd_stop_same_side : forall lo hi r h, lo <= r <= hi -> h r = 0 ->
+  forall tol m s, 0 < m -> (forall x y, lo <= x -> x <= y -> y <= hi -> m * (y - x) <= h y - h x) ->
+  stI lo hi h s -> terminated (sd_real tol) s = true -> 0 <= (bs s - r) * (ws s - r) ->
+  (m * width s) * (m * width s) < 2 * tol * tol.
+Proof. exact u_sd_stop_same_side. Qed.
+
+(* with an upper slope M of h the cost of the best vertex is bounded inside the bracket: the residual contract *)
+Theorem C04_conv_bracket_cost : forall lo hi r h M s, (forall x, lo <= x <= hi -> Rabs (h x) <= M * Rabs (x - r)) -> 0 <= M ->
+  stI lo hi h s -> B2s lo hi r h s -> exists v, vc (s0 s) = CFin v /\ v <= M * (2 * width s).
+Proof. exact u_bracket_cost. Qed.
+
+(* optimum_poling_period (exact simplex operations): if dkz(period) — optimum idler recomputed per period — is strictly
+   monotone on [MIN_POSITIVE, L] with a root r there, the returned simplex point is within 2 * 2^J * 1e-6 / 2^m of r
+   unless the termination test fires before iteration J + 1 + 2 m <= 1000 *)
+Theorem C04_poling_search_converges : forall dkz sd L r h,
+  (forall x, Rabs (h x) = Rabs (dkz_on dkz x (sign_from (z0 dkz)))) -> opp_min_period <= r <= L -> h r = 0 ->
+  (forall x y, opp_min_period <= x -> x < y -> y <= L -> h x < h y) ->
+  forall J m, let g := opp_seed0 (opp_guess (z0 dkz)) in
+  opp_min_period <= g <= L \/ opp_min_period <= g + 1e-6 <= L ->
+  let s := init Rltb (vcost opp_min_period L h) g (g + 1e-6) in
+  (forall j, (j < J)%nat -> doublings opp_min_period L h (steps opp_min_period L h j s)) ->
+  ~ doublings opp_min_period L h (steps opp_min_period L h J s) -> (J + 1 + 2 * m <= opp_max_iter)%nat ->
+  (exists k, (k < J + 1 + 2 * m)%nat /\ terminated sd (steps opp_min_period L h k s) = true) \/
+  Rabs (r - nm_period dkz real_ops sd L) <= 2 * (2 ^ J * 1e-6) / 2 ^ m.
+Proof. exact poling_search_converges. Qed.
+
+Example C04_conv_nonvacuous :
+  let h := fun x : R => x in
+  (-10 <= 0 <= 10 /\ h 0 = 0 /\ (forall x y, -10 <= x -> x < y -> y <= 10 -> h x < h y)) /\
+  (1 : R) <> 2 /\ (-10 <= 1 <= 10 \/ -10 <= 2 <= 10) /\
+  ~ doublings (-10) 10 h (steps (-10) 10 h 0 (init Rltb (vcost (-10) 10 h) 1 2)).
+Proof. exact conv_nonvacuous. Qed.
+
 (* non-vacuity *)
 Example C04_nonvacuous_order : strict_weak_order Rltb.
 Proof. exact (conj Rltb_irrefl (conj Rltb_trans Rltb_cotrans)). Qed.
@@ -130,3 +208,10 @@ Print Assumptions C04_collinear_root.
 Print Assumptions C04_residual_partial.
 Print Assumptions C04_theta_range.
 Print Assumptions C04_theta_residual_partial.
+Print Assumptions C04_conv_bracket_established.
+Print Assumptions C04_conv_bracket_rate.
+Print Assumptions C04_conv_doubling_count.
+Print Assumptions C04_nm_run_converges.
+Print Assumptions C04_sd_stop_same_side.
+Print Assumptions C04_conv_bracket_cost.
+Print Assumptions C04_poling_search_converges.
